@@ -153,15 +153,42 @@ def gen_impl(gen):
     raise ValueError(k)
 
 
+def fresh_on_every_call(case, first, again, max_gates=3000):
+    """a generate_* function builds a NEW circuit on every call.  The first result is edited in place through
+    public mutators (what a caller does with a generated gadget), then the generator is called again with the
+    same arguments: it must return another object with the state the first call returned.
+    -> (ok?, dump of the first result, an unedited result)"""
+    from .semoracle import mutate_everything
+    d1 = ct.dump_circuit(first)
+    if len(d1['gates']) > max_gates:
+        return True, d1, first
+    mutate_everything(first)
+    try:
+        first.set_outputs(list(first._gates)[:1])
+    except Exception:  # noqa: BLE001
+        pass
+    env.uuid_counter.n = case['k0'] - 1
+    second = again()
+    if second is first or ct.dump_circuit(second) != d1:
+        return False, d1, second
+    return True, d1, second
+
+
+SHARED_STATE = 'GenerateReturnsSharedState'   # printed as an unmodelled error: the model always builds afresh
+
+
 def run_gen(case):
     env.uuid_counter.n = case['k0'] - 1
     try:
         c = gen_impl(case['gen'])
+        ok, d1, c = fresh_on_every_call(case, c, lambda: gen_impl(case['gen']))
     except RecursionError:
         raise
     except Exception as e:  # noqa: BLE001
         return ('err', err_name(e)), None
-    return ('ok', ct.dump_circuit(c)), c
+    if not ok:
+        return ('err', SHARED_STATE), None
+    return ('ok', d1), c
 
 
 # ------------------------------------------------------------------ Coq terms
